@@ -128,6 +128,8 @@ def run_v(o: Outcome, n, thorough):
         idx = b["i"] - 1
         src, out = by_idx[idx]
         ideal = tr.text(b["expected"])
+        if ideal == out:
+            continue  # same string, different tokenisation ("]]]" = "]" + "]]")
         o.violation(
             {"origin": "V", "lib": {k: tr.render_body(s) for k, s in cases[idx]["lib"].items()}, "page": src,
              "expected": ideal, "got": out, "ast": cases[idx]},
